@@ -53,8 +53,10 @@ class SkipGroup(Box):
 @nodedataclass
 class Lookahead(Box):
     def _parse(self, ctx: Ctx) -> Any:
+        # NOTE: a lookahead consumes nothing and contributes nothing to the enclosing sequence
         with ctx.if_():
-            return self.exp._parse(ctx)
+            self.exp._parse(ctx)
+        return None
 
     def _pretty(self, lean=False):
         return '&' + self.exp._pretty(lean=lean)
